@@ -12,6 +12,8 @@ CLAIM = (
     "strip() of read_text(encoding='utf-8'); the decoding call sits inside a try whose handler covers UnicodeDecodeError; both "
     "failure arms append a message interpolating the key/path and continue; collected errors are returned (ERR3); "
     "main.execute reads the errors, reports them and returns 1 (ERR1, ERR4)."
+    " SKIPS: the verification / resolution loops in scope have no more `continue`, `break` or in-loop `return` statements than the reference "
+    "read on the unchanged tree (baselines/skips.json): a new skip means elements that were examined are no longer examined."
 )
 NOTE = (
     "Trusted base: pathlib semantics of glob/relative_to/as_posix. Not decided: OS-level behaviours (special files, permissions, "
@@ -182,3 +184,11 @@ def run(ctx) -> None:
     err.check_err3(ctx, f, "ERR3")
     for g in (f, p.func("main:execute")):
         err.check_err12(ctx, g, "ERR1", "ERR1v", "ERR2")
+
+    ctx.rule("SKIPS", "verification/resolution loops have no more continue/break/return-in-loop statements than the reference read on the unchanged tree", floor=1)
+    from ..rules import skips as _skips
+    _base = _skips.load_baseline()
+    for _m in ctx.p.modules.values():
+        if _m.name == "aas_core_codegen.specific_implementations":
+            for _f in _m.functions.values():
+                _skips.check_skips(ctx, _f, "SKIPS", _base)
